@@ -34,6 +34,8 @@ type lowerer struct {
 	d        *Design
 	declared map[string]bool // user types already assigned to their variable
 	picks    uint64          // number of spelling choices made so far
+	// atMapping: the validation being lowered is the one of an HTTP mapping function
+	atMapping bool
 }
 
 // pick chooses among n equivalent spellings: a function of Design.Style and of
@@ -297,7 +299,22 @@ func (l *lowerer) namedAttr(fn, name string, a *Attr, tag int) *dt.Node {
 	return n
 }
 
+// mappingNode lowers a request mapping; validations the model marks
+// VAtMapping are written in the function of the mapping.
+func (l *lowerer) mappingNode(fn string, meth *Method, p Mapping) *dt.Node {
+	n := dt.N(fn, dt.S(mapName(p)))
+	if f := l.d.FieldByName(meth.Payload, p.Attr); f != nil && f.Attr.VAtMapping && !f.Attr.V.Empty() {
+		l.atMapping = true
+		n.With(l.validation(f.Attr)...)
+		l.atMapping = false
+	}
+	return n
+}
+
 func (l *lowerer) validation(a *Attr) []*dt.Node {
+	if a.VAtMapping && !l.atMapping {
+		return nil // written in the HTTP mapping instead
+	}
 	v := a.V
 	if v.Empty() {
 		return nil
@@ -736,7 +753,7 @@ func (l *lowerer) httpEndpoint(m *Method) *dt.Node {
 		}
 	}
 	for _, p := range h.Query {
-		b = append(b, dt.N("Param", dt.S(mapName(p))))
+		b = append(b, l.mappingNode("Param", m, p))
 	}
 	if h.MapParams != "" {
 		if h.MapParams == "*" {
@@ -755,10 +772,10 @@ func (l *lowerer) httpEndpoint(m *Method) *dt.Node {
 		if implicit {
 			continue
 		}
-		b = append(b, dt.N("Header", dt.S(mapName(p))))
+		b = append(b, l.mappingNode("Header", m, p))
 	}
 	for _, p := range h.Cookies {
-		b = append(b, dt.N("Cookie", dt.S(mapName(p))))
+		b = append(b, l.mappingNode("Cookie", m, p))
 	}
 	if h.Body != nil {
 		b = append(b, l.bodyNode(h.Body))
